@@ -20,7 +20,7 @@ func main() {
 				simrt.GoHarness(1, func() { simrt.Sleep(1e15) })
 			}
 			for i := 0; i < 4; i++ {
-				simrt.StartTimer(1e15, 0, false, func(int64) {})
+				simrt.StartTimer(1e15, 0, false, func(int64) bool { return true })
 			}
 		}
 		for i := 0; i < n/2; i++ {
